@@ -89,6 +89,8 @@ Begin(c) ==
   \* the intake caps in force are the documented ones of the scenario's intake-cap mode (people: 10 / 50 / 40 % of the diet from
   \* seaweed / single-cell protein / cellulosic sugar, or 100 % each when the caps are disabled for people; feed 10 / 43 / 10;
   \* biofuel 10 / 100 / 100)
+  \* the stock regime in force is the configured one: food is carried between years unless the run's regime says "no stored between years"
+  /\ Ck("StockRegimeAsConfigured", c.storeCfg = "unknown" \/ (c.store <=> c.storeCfg = "store"))
   /\ Ck("IntakeCapsAsConfigured", c.capsCfg = "unknown" \/
          LET h == IF c.capsCfg = "enabled" THEN [sw |-> I(10), scp |-> I(50), cs |-> I(40)] ELSE [sw |-> I(100), scp |-> I(100), cs |-> I(100)]
          IN /\ \A k \in {"sw", "scp", "cs"} : Eq(c.capH[k], h[k])
